@@ -87,7 +87,7 @@ KNOWN_SHAPES = ["nn_root"]
 
 def generate(seed: int, tier: str, phase: str) -> Dict[str, Any]:
     r = core.rng(seed, "workload")
-    plan: Dict[str, Any] = {"phase": phase, "timeout": 300, "shrink_budget": 60, "key": r.randrange(1 << 30)}
+    plan: Dict[str, Any] = {"phase": phase, "timeout": 300, "shrink_budget": 320, "key": r.randrange(1 << 30)}
     if phase == "isolation":
         ops_: List[Dict[str, Any]] = []
         for _ in range(r.choice([1, 2, 3])):
@@ -270,6 +270,8 @@ def _programs(plan: Dict[str, Any], res: Dict[str, Any], log: Any, prf: Any, pro
 
     def build(pseed: int) -> Tuple[Dict[str, Any], Any, List[List[torch.Tensor]]]:
         spec = proggen.generate(random.Random(pseed), plan["opts"])
+        if pseed == plan["pseed"] and plan.get("spec"):
+            spec = plan["spec"]  # an explicit (shrunk) program replaces the generated one
         return spec, programs.ProgModule(spec), [programs.make_inputs(spec, 50 + k) for k in range(3)]
 
     spec, original, inputs = build(plan["pseed"])
@@ -585,6 +587,17 @@ def neutralise(plan: Dict[str, Any], finding: Dict[str, Any]) -> Optional[Dict[s
 
 def simplify(plan: Dict[str, Any]) -> Iterable[Dict[str, Any]]:
     if plan.get("phase") not in ("dynamo", "direct"):
+        return
+    import random
+
+    from models import proggen, shrinkspec
+
+    base = plan.get("spec") or proggen.generate(random.Random(plan["pseed"]), plan["opts"])
+    for cand in shrinkspec.candidates(base):
+        c = copy.deepcopy(plan)
+        c["spec"] = cand
+        yield c
+    if plan.get("spec"):
         return
     lo, hi = plan["opts"]["depth"]
     for new_hi in (1, 2, 4, 6):
